@@ -19,7 +19,8 @@ Inductive val :=
 | VRec (r : rec)                       (* UKVRecord(pos, key_len, record_len) *)
 | VToc (t : toc_t)                     (* dict[bytes, UKVRecord], insertion ordered *)
 | VStr (s : string)
-| VTup (l : list val).
+| VTup (l : list val)
+| VSelf.                               (* the object itself (`return self`) *)
 
 Inductive exn := XUnsupported | XKey | XStruct | XType | XValue | XOther.
 
@@ -39,6 +40,7 @@ Inductive expr :=
 | ERecField (f : string) (r : expr)    (* r.pos | r.key_len | r.record_len *)
 | EPackBlk (kl rl : expr)              (* Struct(">BI").pack(kl, rl)        struct.error when out of range *)
 | ETupGet (i : nat) (e : expr)
+| ESelf
 | EWritable                            (* self._stream.writable() *)
 | ETell.                               (* self._stream.tell() *)
 
@@ -64,7 +66,8 @@ Inductive stmt :=
 | SClose                               (* self._stream.close() *)
 | SOpenStream (writable : bool)        (* self._stream = self.path.open("r+b" | "rb")     the file exists *)
 | SUnpackRead (x : string) (h : hdr) (dflt : val)
-| SCall (body : stmt)                  (* self.<method>() with no arguments, result unused: a `return` inside ends the call only *)
+| SCall (body : stmt)                  (* self.<method>(...) as a statement (arguments bound just before): a `return` inside ends the call only *)
+| SCallRet (body : stmt)               (* return self.<method>(...): the callee's result (or None) is the caller's *)
 | STryElse (body handler els : stmt)   (* try: body  except: handler; raise  else: els *)
 | SUnmodelled.                         (* a statement outside the modelled fragment (creating a file): raises XOther here *)
     (* x = self._unpack_read(<struct>, dflt):  try: read(struct.size), unpack  except: dflt *)
@@ -90,6 +93,7 @@ Definition truthy (v : val) : bool :=
   | VTup l => match l with [] => false | _ => true end
   | VToc t => match t with [] => false | _ => true end
   | VRec _ => true
+  | VSelf => true
   end.
 
 Definition val_eqb (a b : val) : bool :=
@@ -184,6 +188,7 @@ Section Eval.
     | ETupGet i e1 => match eval e1 with
                       | Val (VTup l) => match nth_error l i with Some v => Val v | None => Exn XValue end
                       | Val _ => Exn XType | Exn z => Exn z end
+    | ESelf => Val VSelf
     | EWritable => if s_closed (strm s) then Exn XValue else Val (VBool (s_wr (strm s)))
     | ETell => if s_closed (strm s) then Exn XValue else Val (VInt (s_pos (strm s)))
     end.
@@ -303,6 +308,12 @@ Fixpoint exec (fuel : nat) (c : stmt) (s : state) {struct c} : state * outcome :
                   | OBreak => (s1, ORaise XOther)
                   | _ => (s1, o)
                   end
+  | SCallRet body => let '(s1, o) := exec fuel body s in
+                     match o with
+                     | ONormal => (s1, OReturn VNone)
+                     | OBreak => (s1, ORaise XOther)
+                     | _ => (s1, o)
+                     end
   | STryElse body handler els =>
       let '(s1, o) := exec fuel body s in
       match o with
@@ -359,6 +370,7 @@ Fixpoint effects (fuel : nat) (c : stmt) (s : state) {struct c} : list effect :=
                    | Val (VInt n) => if s_wr (strm s) then [ET n] else []
                    | _ => [] end
   | SCall body => effects fuel body s
+  | SCallRet body => effects fuel body s
   | STryElse body handler els =>
       let '(s1, o) := exec fuel body s in
       effects fuel body s ++
